@@ -252,7 +252,9 @@ pub fn int_literals(text: &str) -> Vec<u64> {
 }
 
 /// Length of the per-process huge buffer: just over 4 GiB.
-pub const HUGE_LEN: usize = (1usize << 32) + (1 << 20);
+/// 2^32 as a usize (0 on 32-bit targets, where none of the beyond-4-GiB strata run)
+pub const G4: usize = (1u64 << 32) as usize;
+pub const HUGE_LEN: usize = G4.wrapping_add(1 << 20);
 
 /// Run `f` over a zero-filled slice longer than 4 GiB (native 64-bit only; one buffer per worker process, mapped
 /// lazily, so only the pages a case writes cost memory). `f` must restore every byte it wrote to zero (use `Touched`).
